@@ -4,6 +4,7 @@ pub mod c01_sr;
 pub mod c02;
 pub mod rt;
 pub mod c03;
+pub mod c04;
 pub mod c05;
 pub mod c06;
 pub mod c07;
@@ -12,6 +13,7 @@ pub mod c09;
 pub mod c10;
 pub mod c11;
 pub mod c12;
+pub mod c13;
 pub mod c14;
 pub mod c16;
 pub mod c17;
@@ -24,6 +26,7 @@ pub fn run(id: &str, ctx: &Ctx) -> i32 {
         "C01" => c01::run(ctx),
         "C02" => c02::run(ctx),
         "C03" => c03::run(ctx),
+        "C04" => c04::run(ctx),
         "C05" => c05::run(ctx),
         "C06" => c06::run(ctx),
         "C07" => c07::run(ctx),
@@ -32,6 +35,7 @@ pub fn run(id: &str, ctx: &Ctx) -> i32 {
         "C10" => c10::run(ctx),
         "C11" => c11::run(ctx),
         "C12" => c12::run(ctx),
+        "C13" => c13::run(ctx),
         "C14" => c14::run(ctx),
         "C16" => c16::run(ctx),
         "C17" => c17::run(ctx),
@@ -46,6 +50,7 @@ pub fn replay(id: &str, path: &str) -> i32 {
         "C01" => c01::replay(&v),
         "C02" => c02::replay(&v),
         "C03" => c03::replay(&v),
+        "C04" => c04::replay(&v),
         "C05" => c05::replay(&v),
         "C06" => c06::replay(&v),
         "C07" => c07::replay(&v),
@@ -54,6 +59,7 @@ pub fn replay(id: &str, path: &str) -> i32 {
         "C10" => c10::replay(&v),
         "C11" => c11::replay(&v),
         "C12" => c12::replay(&v),
+        "C13" => c13::replay(&v),
         "C14" => c14::replay(&v),
         "C16" => c16::replay(&v),
         "C17" => c17::replay(&v),
